@@ -505,7 +505,11 @@ func Run(prop, tier string, seed int64, repoDir, verifDir string, verbose bool) 
 	if spec.Assumptions == nil {
 		spec.Assumptions = []string{}
 	}
-	ev := &Evidence{PropertyID: prop, Tier: tier, Seed: seed, Level: "model_checking", Assumptions: spec.Assumptions, Violations: nViol}
+	evTier := tier
+	if evTier != "quick" {
+		evTier = "thorough" // the schema knows two tiers; `exhaustive`/`diagnostic` runs are recorded as thorough
+	}
+	ev := &Evidence{PropertyID: prop, Tier: evTier, Seed: seed, Level: "model_checking", Assumptions: spec.Assumptions, Violations: nViol}
 	ev.Coverage = map[string]any{
 		"evaluations":               ob,
 		"distinct_nontrivial":       len(distinct),
@@ -532,6 +536,7 @@ func Run(prop, tier string, seed int64, repoDir, verifDir string, verbose bool) 
 		"load_and_ssa_build_s":      w.LoadTime.Seconds(),
 		"native_globals_dump_s":     w.DumpTime.Seconds(),
 		"exhaustive":                false,
+		"tier_requested":            tier,
 	}
 	if spec.Extra != nil {
 		if err := spec.Extra(w, ev); err != nil {
